@@ -301,6 +301,16 @@ func vNewWorld(t testing.TB, ws *vWorldSpec) *vWorld {
 		if err != nil {
 			t.Fatalf("building registration %s: %v", rs.Name, err)
 		}
+		if rs.State == "dupignored" {
+			// a later registration MESSAGE for a session that is already tracked (same secret, transport and phantom) but naming other
+			// parameters: the station treats it as a duplicate (ingest stops there - nothing of it is validated) and it must change nothing
+			exists, err := rm.TrackRegIfNotExists(reg)
+			if err != nil || !exists {
+				t.Fatalf("%s should be a duplicate of a tracked registration (exists %v, err %v)", rs.Name, exists, err)
+			}
+			w.specs[rs.Name] = rs
+			continue
+		}
 		if err := rm.TrackRegistration(reg); err != nil {
 			t.Fatalf("tracking %s: %v", rs.Name, err)
 		}
@@ -340,6 +350,7 @@ type vCase struct {
 	Cuts      []int   `json:"cuts"`
 	PaceMs    int     `json:"pace_ms"`
 	PeerClose bool    `json:"peer_close"`
+	StartMs   int     `json:"start_ms"` // the connection arrives this long after the batch started
 }
 
 func vGarbage(gen string, n int, id string) []byte {
@@ -685,6 +696,27 @@ func TestVerifClassify(t *testing.T) {
 			}
 		}
 		w.emu.Unlock()
+		// statistics epochs rolling over while connections are open (the station prints and resets its connection statistics every
+		// minute; a reset replaces the per-ASN tables): VERIF_EPOCH_MS > 0 makes that happen many times during the batch
+		epochStop := make(chan struct{})
+		var epochWG sync.WaitGroup
+		rollovers := 0
+		if ms := vEnvInt("VERIF_EPOCH_MS", 0); ms > 0 {
+			epochWG.Add(1)
+			go func() {
+				defer epochWG.Done()
+				lg := log.New(io.Discard, "", 0)
+				for {
+					select {
+					case <-epochStop:
+						return
+					case <-time.After(time.Duration(ms) * time.Millisecond):
+						w.cm.connStats.PrintAndReset(lg)
+						rollovers++
+					}
+				}
+			}()
+		}
 		sem := make(chan struct{}, par)
 		var wg sync.WaitGroup
 		for _, cs := range batch {
@@ -694,10 +726,15 @@ func TestVerifClassify(t *testing.T) {
 			go func() {
 				defer wg.Done()
 				defer func() { <-sem }()
+				if cs.StartMs > 0 {
+					time.Sleep(time.Duration(cs.StartMs) * time.Millisecond)
+				}
 				out.Emit(w.runCase(cs))
 			}()
 		}
 		wg.Wait()
+		close(epochStop)
+		epochWG.Wait()
 		// short application data shared by several cases: as many covert connections received exactly it as cases matched
 		for k := range shortWants {
 			w.emu.Lock()
@@ -711,7 +748,7 @@ func TestVerifClassify(t *testing.T) {
 		// secondary invariant: the connection-statistics state machine balances once every handler has returned
 		c, c6 := &w.cm.connStats.ipv4, &w.cm.connStats.ipv6
 		ld := func(p, q *int64) int64 { return atomic.LoadInt64(p) + atomic.LoadInt64(q) } // IPv4 + IPv6 phantoms
-		out.Emit(map[string]any{"kind": "connstats", "cases": len(batch),
+		out.Emit(map[string]any{"kind": "connstats", "cases": len(batch), "rollovers": rollovers,
 			"in_flight": map[string]int64{"created": ld(&c.numCreated, &c6.numCreated), "reading": ld(&c.numReading, &c6.numReading),
 				"checking": ld(&c.numChecking, &c6.numChecking), "discarding": ld(&c.numIODiscarding, &c6.numIODiscarding)},
 			"outcomes": map[string]int64{"found": ld(&c.numFound, &c6.numFound), "reset": ld(&c.numReset, &c6.numReset),
